@@ -376,3 +376,78 @@ fn verif_native_assemble_encodes() {
     assert!(rejected > 0 && rejected < evaluated, "degenerate enumeration");
     verif_out(&format!("VERIF-NATIVE name={} evaluated={} distinct={}", name, evaluated, rejected));
 }
+
+/// C01 / C04 at PROGRAM level (the contract of `parse` itself is about numbering and the symbol table; what goes into which
+/// statement is proved per helper): EVERY sequence of <= 4 lines over 15 lines — instructions, label definitions and uses in
+/// both orders, a duplicate definition, an undefined reference, `.orig`, `.fill`, `.blkw`, `.stringz`, `.break` — is assembled
+/// and compared with a reference written here: accepted iff no label is defined twice, every referenced label is defined and
+/// `.orig` appears at most once; the image is the origin word then the words of each line in order, label operands encoding
+/// (address of the labelled word) - (address of the reference + 1)
+#[test]
+fn verif_native_program_layout() {
+    let name = "verif_native_program_layout";
+    init_features();
+    // (text, label defined, label referenced with (opcode bits, field width), words: fixed part; a reference line has one word)
+    struct L { text: &'static str, def: Option<&'static str>, refs: Option<(&'static str, u16, u32)>, words: &'static [u16], orig: Option<u16> }
+    let pool: [L; 15] = [
+        L { text: "add r1,r2,#3", def: None, refs: None, words: &[0x12A3], orig: None },
+        L { text: "lbl add r0,r0,#1", def: Some("lbl"), refs: None, words: &[0x1021], orig: None },
+        L { text: "two: not r3,r3", def: Some("two"), refs: None, words: &[0x96FF], orig: None },
+        L { text: "br lbl", def: None, refs: Some(("lbl", 0x0E00, 9)), words: &[], orig: None },
+        L { text: "ld r3, two", def: None, refs: Some(("two", 0x2600, 9)), words: &[], orig: None },
+        L { text: "jsr lbl", def: None, refs: Some(("lbl", 0x4800, 11)), words: &[], orig: None },
+        L { text: "me st r1, me", def: Some("me"), refs: Some(("me", 0x3200, 9)), words: &[], orig: None },
+        L { text: ".orig x4000", def: None, refs: None, words: &[], orig: Some(0x4000) },
+        L { text: ".fill xBEEF", def: None, refs: None, words: &[0xBEEF], orig: None },
+        L { text: "d .blkw #2", def: Some("d"), refs: None, words: &[0, 0], orig: None },
+        L { text: ".stringz \"hi\"", def: None, refs: None, words: &[0x68, 0x69, 0], orig: None },
+        L { text: ".break", def: None, refs: None, words: &[], orig: None },
+        L { text: "lbl ret", def: Some("lbl"), refs: None, words: &[0xC1C0], orig: None },
+        L { text: "lea r0, nowhere", def: None, refs: Some(("nowhere", 0xE000, 9)), words: &[], orig: None },
+        L { text: "lea r2, d", def: None, refs: Some(("d", 0xE400, 9)), words: &[], orig: None },
+    ];
+    let n = pool.len();
+    let mut evaluated = 0u64;
+    let mut rejected = 0u64;
+    for len in 1..=(if verif_deep() { 5usize } else { 4 }) {
+        for code in 0..n.pow(len as u32) {
+            let mut c = code;
+            let mut seq = Vec::new();
+            for _ in 0..len { seq.push(&pool[c % n]); c /= n; }
+            let src: String = seq.iter().map(|l| format!("{}\n", l.text)).collect();
+            // reference
+            let mut ok = true;
+            let mut origin = None;
+            let mut defs: Vec<(&str, usize)> = Vec::new();
+            let mut at = 0usize;
+            for l in &seq {
+                if let Some(o) = l.orig { if origin.is_some() { ok = false; } origin = Some(o); }
+                if let Some(d) = l.def { if defs.iter().any(|(k, _)| *k == d) { ok = false; } defs.push((d, at)); }
+                at += l.words.len() + if l.refs.is_some() { 1 } else { 0 };
+            }
+            let mut want = vec![origin.unwrap_or(0x3000)];
+            let mut at = 0usize;
+            for l in &seq {
+                if let Some((r, op, bits)) = l.refs {
+                    match defs.iter().find(|(k, _)| *k == r) {
+                        None => { ok = false; want.push(0); }
+                        Some((_, target)) => { let d = *target as i32 - (at as i32 + 1); want.push(op | (d as u16 & ((1u32 << bits) - 1) as u16)); }
+                    }
+                    at += 1;
+                }
+                for w in l.words { want.push(*w); at += 1; }
+            }
+            evaluated += 1;
+            let got = verif_catch(|| image_of(leak(&src)));
+            let fail = |d: String| { verif_out(&format!("VERIF-COUNTEREXAMPLE name={} input={:?} detail={}", name, src, d)); panic!("violation"); };
+            match got {
+                Err(m) => fail(format!("panic: {}", m)),
+                Ok(Ok(img)) => { if !ok { fail(format!("accepted (image {:04x?}) although a label is defined twice / undefined / .orig repeated", img)); }
+                    if img != want { fail(format!("image {:04x?}, expected {:04x?}", img, want)); } }
+                Ok(Err(())) => { if ok { fail(format!("rejected; expected image {:04x?}", want)); } rejected += 1; }
+            }
+        }
+    }
+    assert!(rejected > 0 && rejected < evaluated, "degenerate enumeration");
+    verif_out(&format!("VERIF-NATIVE name={} evaluated={} distinct={}", name, evaluated, rejected));
+}
